@@ -427,6 +427,9 @@ func c09ChildPrograms(kind string, quick bool) []c09ChildProg {
 			c09P("unjson-growth", `unjson("a = [1, 2, 3, 4, 5, 6, 7, 8, 9]; for 60 { a = a + a }")`),
 			c09P("eval-growth", `eval("a = [1, 2, 3, 4, 5, 6, 7, 8, 9]; for 60 { a = a + a }")`),
 			c09P("read-then-loop", "l = read(); for true { }"),
+			c09P("read-then-recursion", "l = read(); println(l); func r(n) { r(n + 1) }; r(0)"),
+			c09P("read-twice-then-growth", "l = read(); l2 = read(); a = [l, l2]; for true { a = a + a }"),
+			c09P("read-in-loop", "for true { l = catch(read()) }"),
 			c09P("ctx-parent-deadline", "for true { }"), // (run with a caller context that has its own, much later, deadline)
 			c09P("ctx-parent-cancel", "for true { }"),   // (caller context without deadline, cancellable)
 			c09P("value-nesting-print", "a = []; for 100000000 { a = [a] }; println(len(str(a)))"),
@@ -777,6 +780,7 @@ func c09Children(c *core.Ctx, bounds *[]string) {
 			// one child per program: a fatal error (stack overflow, out of memory) is attributed to it
 			cmd := exec.Command("bash", "-c", fmt.Sprintf("ulimit -v %d; exec %q C09-child %s %s %q", 8<<20, self, j.kind, tier, j.prog.name))
 			cmd.Env = append(os.Environ(), fmt.Sprintf("GOMEMLIMIT=%dMiB", j.limit), "GOMAXPROCS=2")
+			cmd.Stdin = strings.NewReader("a line for read()\nanother one\n") // (a pipe with data: read() returns, the program goes on)
 			var buf bytes.Buffer
 			cmd.Stdout = &buf
 			cmd.Stderr = &buf
